@@ -5,6 +5,8 @@ CONSTANTS
   Values = {"A", "B"}
   MaxRound = 3
   MaxCrash = 1
+  MidCrash = TRUE
+  SendBeforeSync = FALSE
   FixWal = FALSE
   Order <- OrderDef
 INVARIANT EmitCex
